@@ -425,6 +425,19 @@ def obligations(tier):
     ob.id = ob.id.replace('C11/to_tau', 'C02/actuator.to_tau')
     obs.append(ob)
 
+  def _sv():
+    from brax.generalized import pipeline
+    from brax.io import mjcf
+    from verif.contracts import C04
+    sys = mjcf.loads(C04.tree_xml(C04.SHAPES['f-(h,s)'])).replace(matrix_inv_iterations=0)
+
+    def f(q_, qd_):
+      st = pipeline.init(sys, q_, qd_)
+      return st.mass_mx, st.cdof.ang, st.cdof.vel, st.cd.vel, st.root_com
+    return f, [np.asarray(sys.init_q, dtype=float), np.zeros(sys.qd_size())]
+  from verif.contracts.common import engine_selfcheck
+  obs.append(engine_selfcheck('C02/engine/self_validation[generalized init]', 'brax.generalized.pipeline:init (forward, transform_com, mass.matrix)', _sv, budget=900))
+
   def canary():
     # crb form with the mask forgotten (sibling coupling) must be refuted
     from brax.generalized import mass
